@@ -40,3 +40,26 @@ Definition ac_start : json := match ptr_get ["definitions"; "a"] ac_root with So
 Definition ac_nodes := Eval vm_compute in
   topo gen_env ac_docs "/" 50 (collect gen_env ac_docs "/" 200 [(ex_root_url, ac_start)] []) [].
 Definition ac_live := Some (ex_root_url, ac_root).
+
+(* a parameter chain that crosses documents (the witness of the repaired defect F7): x.json's operation refers to
+   root.json#/parameters/p1, which refers — fragment-only — to p0 OF root.json (x.json has a p0 too), a body parameter
+   whose schema is recursive *)
+Definition el_root_url := "file:///r/root.json".
+Definition el_other_url := "file:///q/x.json".
+Definition el_root : json := Eval vm_compute in nf "Swagger" (pj
+ "{""swagger"":""2.0"",""info"":{""title"":""doc0"",""version"":""1""},
+   ""parameters"":{""p0"":{""in"":""body"",""name"":""b"",""schema"":{""$ref"":""#/definitions/n""}},""p1"":{""$ref"":""#/parameters/p0""}},
+   ""definitions"":{""n"":{""type"":""object"",""properties"":{""next"":{""$ref"":""#/definitions/n""}}}},
+   ""paths"":{""/y"":{""$ref"":""../q/x.json#/paths/~1z0""}}}").
+Definition el_other : json := Eval vm_compute in nf "Swagger" (pj
+ "{""swagger"":""2.0"",""info"":{""title"":""doc2"",""version"":""1""},
+   ""parameters"":{""p0"":{""in"":""header"",""name"":""other"",""type"":""integer""}},
+   ""definitions"":{""n"":{""type"":""string""}},
+   ""paths"":{""/z0"":{""post"":{""parameters"":[{""$ref"":""../r/root.json#/parameters/p1""}],""responses"":{""200"":{""description"":""d""}}}}}}").
+Definition el_docs := [(el_root_url, el_root); (el_other_url, el_other)].
+Definition el_holder : list (string * json) := [("$ref", JStr "../r/root.json#/parameters/p1")].
+Definition el_p0 : list (string * json) := [("name", JStr "b"); ("in", JStr "body"); ("schema", JObj [("$ref", JStr "#/definitions/n")])].
+Definition el_enodes : list (string * string * list (string * json)) :=
+  [("Parameter", el_other_url, el_holder); ("Parameter", el_root_url, [("$ref", JStr "#/parameters/p0")]); ("Parameter", el_root_url, el_p0)].
+Definition el_nodes := Eval vm_compute in collect gen_env el_docs "/" 100 [(el_root_url, JObj [("$ref", JStr "#/definitions/n")])] [].
+Definition el_live := Some (el_root_url, el_root).
